@@ -238,7 +238,7 @@ func init() {
 				n++
 				c.Check(IsLoadOf(fl)(callArg(cs.Instr, 1)), "advertise-local@"+c.P.FuncName(cs.Fn), c.Pos(cs.Instr), "setSupportedExtensions(…, a.localInterleaving)", "extensions advertised from something other than localInterleaving")
 			}
-			c.Check(n == 2, "advertise-sites", "", "INIT and INIT-ACK builders advertise", fmt.Sprintf("%d advertising sites", n))
+			c.Check(n >= 2, "advertise-sites", "", "INIT and INIT-ACK builders advertise", fmt.Sprintf("%d advertising sites", n))
 			// setSupportedExtensions lists I-DATA and I-FORWARD-TSN iff enabled
 			for _, en := range []bool{false, true} {
 				outs, und := c.P.PEval(sse, PEConfig{Params: map[int]constant.Value{1: b(en)}})
